@@ -165,15 +165,42 @@ def patch_engine(butler):
     sqlalchemy.event.listen(eng, "commit", on_commit)
 
 
+_CFG = {}
+
+
+def _open(root):
+    """Butler.from_config with the parsed ButlerConfig of this path cached per worker process: every fault position reopens
+    a fresh copy of the same repository at the same path, and parsing the configuration is half the cost of opening."""
+    import copy
+
+    from lsst.daf.butler import Butler, ButlerConfig
+    cfg = _CFG.get(root)
+    if cfg is None:
+        cfg = _CFG[root] = ButlerConfig(root)
+    return Butler.from_config(copy.deepcopy(cfg), writeable=True)
+
+
+def _additive(p):
+    if p[0] == "op":
+        return p[1] not in ("purge", "unstore", "emptytrash")
+    if p[0] == "block":
+        return all(_additive(q) for q in p[1])
+    if p[0] == "try":
+        return _additive(p[1])
+    return True
+
+
 # ------------------------------------------------------------------------------------------------------------
 class World:
     def __init__(self, top):
         self.top = top
         self.root = os.path.join(top, "repo")
         self.ext = os.path.join(top, "ext")
-        self.butler = fixture.open_repo(self.root)
+        self.butler = _open(self.root)
         patch_engine(self.butler)
         self.dt = self.butler.get_dataset_type("dt")
+        self.escapes = []
+        self._tables = None
 
     def close(self):
         try:
@@ -238,14 +265,47 @@ class World:
                 for q in p[1]:
                     self.run_prog(q)
         elif k == "try":
+            # the statement, checked where the program itself catches a failure: a failing additive construct (operation
+            # or Butler.transaction block) must leave everything as it was when the construct was entered
+            watch = _additive(p[1])
+            before = self.light() if watch else None
             try:
                 self.run_prog(p[1])
-            except Exception:  # noqa: BLE001  (the program's own `except Exception: pass`)
-                pass
+            except Exception as e:  # noqa: BLE001  (the program's own `except Exception: pass`)
+                if watch:
+                    after = self.light()
+                    if after != before:
+                        self.escapes.append({"exc": type(e).__name__, "construct": p[1][0] if p[1][0] != "op" else p[1][1],
+                                             "before": before, "after": after})
         elif k == "fail":
             raise UserFail("user exception")
         else:
             raise ValueError(p)
+
+    def light(self):
+        """Cheap fingerprint of what THIS client's connection sees right now (inside whatever transaction is open) plus
+        the file listings; raw SQL on the client's own connection, so that no Butler cache is touched.  Not a boundary."""
+        import sqlalchemy
+        INJ.suspend += 1
+        try:
+            out = {}
+            db = self.butler._registry._db
+            try:
+                if self._tables is None:
+                    with db.query(sqlalchemy.text("select name from sqlite_master where type='table'")) as res:
+                        names = sorted(r[0] for r in res.fetchall())
+                    self._tables = [n for n in names if n in ("dataset", "instrument", "dataset_location", "file_datastore_records")
+                                    or n.startswith("dataset_tags_") or n.startswith("dataset_calibs_")]
+                for tb in self._tables:
+                    with db.query(sqlalchemy.text(f"select count(*) from {tb}")) as res:
+                        out[tb] = int(res.fetchall()[0][0])
+            except Exception as e:  # noqa: BLE001
+                out["error"] = f"{type(e).__name__}:{str(e)[:80]}"
+            out["fs"] = sorted(fixture.listing(self.root))
+            out["ext"] = sorted(os.listdir(self.ext))
+            return out
+        finally:
+            INJ.suspend -= 1
 
     # -- observation -----------------------------------------------------------------------
     def observe(self):
@@ -393,7 +453,7 @@ def run_one(base, work, prog, at, flavour, follow=None):
             out = "Raised:" + type(e).__name__
         finally:
             INJ.active = False
-        res = {"out": out, "fired": INJ.fired, "nevents": INJ.n, "obs": w.observe()}
+        res = {"out": out, "fired": INJ.fired, "nevents": INJ.n, "escapes": list(w.escapes), "obs": w.observe()}
         if at is None:
             res["trace"] = list(INJ.trace)
         if follow:
